@@ -173,7 +173,10 @@ def part_a(ctx, rs, reps):
                                   actual={"score": s, "finite_gradient_entries": int(np.isfinite(G).sum())},
                                   key=f"nonfinite-evaluate:{key_tail}", how=HOW_G)
                     # still compared with the model below: both must agree on the tokens
-                emd = gl.emd_tables(calls, n, K, ovo) if cls == "wass" else None
+                emd = gl.emd_tables_or_none(calls, n, K, ovo) if cls == "wass" else None
+                if cls == "wass" and emd is None:
+                    ctx.corr_break("evaluate:wass:pot-calls", {"config": cfg, "n": n, "K": K}, "the recorded ot.emd2 calls are not the ones the model is parameterised by")
+                    continue
                 scale = 1.0 if A is None else max(1.0, float(np.abs(A).max()))
                 lines.append(gl.model_line("score", cls, ovo, eps, P, A, emd)); expect.append(("score:" + cfg, inp, [s], scale))
                 lines.append(gl.model_line("grad", cls, ovo, eps, P, A, emd)); expect.append(("grad:" + cfg, inp, G.ravel().tolist(), scale))
